@@ -97,6 +97,7 @@ def __next_token__(text: str) -> Tuple[str, int, int]:
     elif text.startswith("|"):
         return "", _TOK_OR, 1
     elif not text[0].isalpha() and not text[0] == "'":
+        assert text[0] not in ")]", f"unbalanced parenthesis or bracket in: {text}"
         i = 1
         while i < len(text) and not (text[i].isalpha() or text[i] in __SPECIAL_TOKENS):
             i += 1
@@ -180,6 +181,7 @@ def auto_type(el: Union[Dict[str, str], str]) -> Union[Dict[str, Type], Type]:
             # even more interesting part:
             # if the expression is well-formed then
             # we just need to put arrows between all elements of the stacks
+            assert len(stack) == last_infix + 1, f"missing type before {w} in: {el}"
             last_infix += 1
             infix_stack.append(w)
         elif token == _TOK_OR:
@@ -197,6 +199,8 @@ def auto_type(el: Union[Dict[str, str], str]) -> Union[Dict[str, Type], Type]:
         # update text
         text = text[index:].strip()
     assert len(stack) >= 1
+    assert or_flag < 0, f"missing type after | in: {el}"
+    assert len(stack) == last_infix + 1, f"missing type after an infix in: {el}"
     while len(stack) > 1:
         last = stack.pop()
         w = infix_stack.pop()
